@@ -52,6 +52,22 @@ namespace c08
                 auto q = nm::get_if<R_t>(&v);
                 emit_any<R>(out, *q, "R");
             }
+        } else if constexpr (meta::is_maybe_v<V>) {
+            using inner_t = meta::get_maybe_type_t<V>;
+            if constexpr (meta::is_either_v<inner_t> || meta::is_maybe_v<inner_t>) {
+                // maybe<either<...>> (composite wrappers with run-time keepdims)
+                if (!nm::has_value(v)) {
+                    out.tok("M 1 V N E N C N O N X");
+                    out.tok(vh::type_tag<R>());
+                    out.tok("??");
+                    out.tok(side);
+                } else {
+                    emit_any<R>(out, *v, side);
+                }
+            } else {
+                c07::emit<R>(out, v);
+                out.tok(side);
+            }
         } else {
             c07::emit<R>(out, v);
             out.tok(side);
